@@ -280,6 +280,8 @@ fn event_fill(num: u64, len: usize) -> Vec<u8> {
 
 struct Synth {
     clusters: Vec<ClusterSpec>,
+    /// the current data version of each cluster: starts at the case's value, +1 (wrapping) per notified change
+    dvs: RefCell<Vec<u32>>,
     node: &'static Node<'static>,
 }
 
@@ -333,7 +335,18 @@ impl Synth {
         let node: &'static Node<'static> = Box::leak(Box::new(Node::new(endpoints)));
         Synth {
             clusters: clusters.to_vec(),
+            dvs: RefCell::new(clusters.iter().map(|c| c.dv).collect()),
             node,
+        }
+    }
+
+    fn bump(&self, ctx: impl MatchContext) {
+        let (ep, cl) = (ctx.endpt(), ctx.cluster());
+        let mut dvs = self.dvs.borrow_mut();
+        for (i, c) in self.clusters.iter().enumerate() {
+            if ep.map(|e| e == c.ep).unwrap_or(true) && cl.map(|x| x == c.id).unwrap_or(true) {
+                dvs[i] = dvs[i].wrapping_add(1);
+            }
         }
     }
 }
@@ -341,17 +354,19 @@ impl Synth {
 impl Handler for Synth {
     fn read(&self, ctx: impl ReadContext, reply: impl ReadReply) -> Result<(), Error> {
         let attr = ctx.attr();
-        let cl = self
+        let ci = self
             .clusters
             .iter()
-            .find(|c| c.ep == attr.endpoint_id && c.id == attr.cluster_id)
+            .position(|c| c.ep == attr.endpoint_id && c.id == attr.cluster_id)
             .ok_or(ErrorCode::ClusterNotFound)?;
+        let cl = &self.clusters[ci];
+        let dataver = self.dvs.borrow()[ci];
         let (_, spec) = cl
             .attrs
             .iter()
             .find(|(id, _)| *id == attr.attr_id)
             .ok_or(ErrorCode::AttributeNotFound)?;
-        let Some(mut writer) = reply.with_dataver(cl.dv)? else {
+        let Some(mut writer) = reply.with_dataver(dataver)? else {
             return Ok(());
         };
         let list_index = attr.list_index.clone().map(|li| li.into_option());
@@ -394,7 +409,9 @@ impl Handler for Synth {
         Err(ErrorCode::CommandNotFound.into())
     }
 
-    fn bump_dataver(&self, _ctx: impl MatchContext) {}
+    fn bump_dataver(&self, ctx: impl MatchContext) {
+        self.bump(ctx)
+    }
 }
 
 impl NonBlockingHandler for Synth {}
@@ -423,7 +440,9 @@ impl rs_matter::dm::AsyncHandler for SynthDm<'_> {
     async fn read(&self, ctx: impl ReadContext, reply: impl ReadReply) -> Result<(), Error> {
         rs_matter::dm::AsyncHandler::read(&self.0, ctx, reply).await
     }
-    fn bump_dataver(&self, _ctx: impl MatchContext) {}
+    fn bump_dataver(&self, ctx: impl MatchContext) {
+        self.1.bump(ctx)
+    }
 }
 
 // ------------------------------------------------------------------ request encoding
@@ -1096,6 +1115,16 @@ fn run_case(c: &Case, hang_ms: u64) -> String {
         }
     });
 
+    // a report is decoded against the node as it is after the changes: data versions bumped
+    let after: Case = {
+        let mut a = c.clone();
+        for cl in a.clusters.iter_mut() {
+            let n = c.changes.iter().filter(|(ep, id, _)| *ep == cl.ep && *id == cl.id).count() as u32;
+            cl.dv = cl.dv.wrapping_add(n);
+        }
+        a
+    };
+    let c = if c.update { &after } else { c };
     let texts = |chunks: &RefCell<Vec<Vec<u8>>>| -> (usize, String) {
         let chunks = chunks.borrow();
         let mut next_idx = std::collections::BTreeMap::new();
@@ -1763,9 +1792,27 @@ fn gen(tier: &str, seed: u64, outdir: &str) {
         }
         // what changes: single attributes or whole clusters (the changed-attribute table holds 16 entries)
         let n_ch = if g.rng.chance(1, 12) { 0 } else { g.rng.range(1, 4) };
+        let mut changed: Vec<(u16, u32)> = Vec::new();
         for _ in 0..n_ch {
             let (ep, cl, _, _, ids) = g.rng.pick(&clusters).clone();
+            changed.push((ep, cl));
             c.c.push(if g.rng.chance(1, 4) { format!("{}.{}.*", ep, cl) } else { format!("{}.{}.{}", ep, cl, g.rng.pick(&ids)) });
+        }
+        // data-version filters of the subscribe request: they shape the priming report only; in particular the version a
+        // cluster HAS (priming leaves it out) and the version it REACHES through the changes must not hide a change
+        if g.rng.chance(1, 2) {
+            let mut fs = Vec::new();
+            for _ in 0..g.rng.range(1, 2) {
+                let (ep, cl, dv, _, _) = g.rng.pick(&clusters).clone();
+                let n = changed.iter().filter(|x| **x == (ep, cl)).count() as u32;
+                let v = match g.rng.below(4) {
+                    0 => dv,
+                    1 => dv.wrapping_add(1),
+                    _ => dv.wrapping_add(n),
+                };
+                fs.push(format!("{}.{}.{}", ep, cl, v));
+            }
+            c.f = fs.join(",");
         }
         if !c.p.is_empty() {
             let stored: usize = c.e.iter().map(|e| e.split('.').nth(4).unwrap().parse::<usize>().unwrap() + 40).sum();
@@ -1787,6 +1834,57 @@ fn gen(tier: &str, seed: u64, outdir: &str) {
             }
         }
         g.emit("u-reports", &c);
+    }
+
+    // --- stream d: data-version filters and change reports.  The filters of a subscribe request apply to the priming
+    //     report only: a later change is reported whatever version the cluster had or reaches - the version it has at
+    //     subscribe time (priming omits the cluster), current+1 then one change, current+2 then two, past it, the
+    //     32-bit wrap, a version that grows by a byte, several filters, a filter on a cluster that does not change
+    for (node, q, f, ch) in [
+        ("0.100.7:0=s500,1=l600+600+600,2=s20", "0.100.*", "0.100.7", "0.100.1"),
+        ("0.100.7:0=s500,1=l600+600+600,2=s20", "0.100.*", "0.100.8", "0.100.1"),
+        ("0.100.7:0=s500,1=l600+600+600,2=s20", "0.100.*", "0.100.8", "0.100.1,0.100.2"),
+        ("0.100.7:0=s500,1=l600+600+600,2=s20", "0.100.*", "0.100.9", "0.100.1,0.100.*"),
+        ("0.100.7:0=s500,1=l600+600+600,2=s20", "0.100.*", "0.100.9,0.100.8", "0.100.0"),
+        ("0.100.7:0=s500,1=l600+600+600,2=s20", "0.100.1", "0.100.8", "0.100.1"),
+        ("0.100.4294967295:0=s500,1=s30", "0.100.*", "0.100.0", "0.100.0"),
+        ("0.100.4294967295:0=s500,1=s30", "0.100.*", "0.100.4294967295", "0.100.0,0.100.1"),
+        ("0.100.255:0=s1100,1=s30", "0.100.*", "0.100.256", "0.100.0"),
+        ("0.100.65535:0=l1100+1100,1=s30", "*.*.*", "0.100.65536", "0.100.*"),
+        ("0.100.7:0=s500,1=s20;1.300.70000:5=s400,300=l200+200+200", "*.*.*", "1.300.70001,0.100.7", "1.300.300"),
+        ("0.100.7:0=s500,1=s20;1.300.70000:5=s400,300=l200+200+200", "*.*.*", "1.300.70001,0.100.8", "1.300.*,0.100.1"),
+        ("0.100.7:0=s500,1=s20;1.300.70000:5=s400,300=l200+200+200", "*.*.*", "0.100.8", "1.300.5"),
+        ("0.100.7:0=s500,1=s20;1.300.70000:5=s400,300=l200+200+200", "1.300.*,0.100.0", "1.300.70000,0.100.7", "1.300.5,0.100.0"),
+    ] {
+        for with_ev in [false, true] {
+            let c = CaseB {
+                sub: true,
+                upd: true,
+                n: node.split(';').map(|x| x.to_string()).collect(),
+                q: q.into(),
+                f: f.into(),
+                p: if with_ev { "*.*.*".into() } else { String::new() },
+                c: ch.split(',').map(|x| x.to_string()).collect(),
+                e2: if with_ev { vec!["0.100.1.2.40.5".into()] } else { vec![] },
+                ..Default::default()
+            };
+            g.emit("d-dataver-reports", &c);
+        }
+    }
+    // the same filters in reads and primings: a cluster whose version equals its (first) filter is left out, any other is not
+    for sub in [false, true] {
+        for f in ["0.100.7", "0.100.8", "0.100.6,0.100.7", "0.100.7,0.100.6", "0.100.4294967295", "1.300.70000,0.100.7", "2.100.7"] {
+            for q in ["*.*.*", "0.100.1,1.300.*", "0.100.*"] {
+                let c = CaseB {
+                    sub,
+                    n: vec!["0.100.7:0=s500,1=l600+600+600,2=s20".into(), "1.300.70000:5=s400,300=l200+200+200".into()],
+                    q: q.into(),
+                    f: f.into(),
+                    ..Default::default()
+                };
+                g.emit("d-dataver-reports", &c);
+            }
+        }
     }
 
     // --- stream a: a peer that answers chunk k with another status (f<k>) or stops talking after it (x<k>);
